@@ -1483,3 +1483,15 @@ MUTANTS += [
         {"file": TL, "old": _TL_CLS, "new": _TALLY_SHARED + _TL_CLS},
         {"file": TL, "old": _RENDER_HEAD, "new": _RENDER_HEAD + "        tally = _Tally()\n        tally.note(proj_name)\n"}], "rules": ["R3"]},
 ]
+
+# ---- wave 4: the condition an installation hangs on is named by its operands, not by their order ----
+_INST = "        if self._known_elements or self._known_pseudo_elements:\n            Species.set_known_elements(self._known_elements)\n            Species.set_known_pseudoelements(self._known_pseudo_elements)\n"
+BENIGN += [
+    {"name": "installation-guard-operands-swapped", "file": NF, "old": _INST, "count": 6,
+     "new": "        if self._known_pseudo_elements or self._known_elements:\n            Species.set_known_elements(self._known_elements)\n            Species.set_known_pseudoelements(self._known_pseudo_elements)\n"},
+    {"name": "installation-in-private-helper-with-guard-clause", "edits": [
+        {"file": NF, "old": _INST, "new": "        self._install_known_elements()\n", "count": 6},
+        {"file": NF, "old": "    def find_duplicate_reaction(self, mode: str = None)",
+         "new": "    def _install_known_elements(self):\n        if not (self._known_elements or self._known_pseudo_elements):\n            return\n        Species.set_known_elements(self._known_elements)\n"
+                "        Species.set_known_pseudoelements(self._known_pseudo_elements)\n\n    def find_duplicate_reaction(self, mode: str = None)"}]},
+]
